@@ -9,6 +9,7 @@ CONSTANTS
   Std <- Std2
   StdFrom <- NoStdFrom2
   CycEdges <- Cyc2
+  FailMode = "none"
   Fuel = 3
 INVARIANTS Accounting TeardownOnlyWhenQuiet LatchOnlyWhenQuiet NoWorkLost OrderedTeardown
 PROPERTIES Termination
